@@ -19,6 +19,7 @@ LEVEL_TEXT = ("For a grid of timing configurations the model's scheduled transmi
 LEVEL_NOTE = ("trusts the timeline model in this module, pv/refwire.py, forced random draws (same fraction for every draw of a "
               "scenario); events closer than the clock resolution to a stop are 'either'; a non-cyclic instance stopped before its "
               "first offer may or may not send a StopOffer (the property only speaks about cyclic ones)")
+TIEBREAK_VARIANTS = True  # thorough tier: some shards run equal-deadline timers LIFO / in seeded random order
 RULE = (
     "configurations = initial window {[0,0],[a,a],[a,b]} x draw fraction {0,1/4,1/2,1} x repetitions 0..4 x cyclic period or none x "
     "TTL {3, infinite} x collection timeout {0, 2^-8, 2^-4 = the repetition base delay} x answer-delay window {[0,0],[c,c],[c,d]}; per configuration the scheduled "
